@@ -16,17 +16,41 @@ def sync_consts(H, F=0, ForkAt=0, CpHs=(2,), Peers=(1, 2), Cap=2, CpEnabled=True
 EXTRA = ["CONSTANT Par <- ParV", "CONSTANT Cps <- CpsV"]
 
 
-def tlc(consts, invariants, properties=(), view="SyView", emit_file=None, simulate=None, depth=None, seed=None, timeout=1800, workers=None, constraint=None):
+def tlc(consts, invariants, properties=(), view="SyView", emit_file=None, simulate=None, depth=None, seed=None, timeout=1800, workers=None, constraint=None, scripts=None):
     d = c.sub("cfg")
-    cfg = os.path.join(d, "sync_%d.cfg" % random.randrange(1 << 30))
-    c.write_cfg(cfg, "MSySpec", consts, invariants, properties, view=view, extra=EXTRA, constraint=constraint)
-    return c.run_tlc("MC_Sync", cfg, timeout=timeout, out_file=emit_file, simulate=simulate, depth=depth, seed=seed, workers=1 if simulate else workers)
+    k = random.randrange(1 << 30)
+    cfg = os.path.join(d, "sync_%d.cfg" % k)
+    module, extra_files, extra = "MC_Sync", (), list(EXTRA)
+    if scripts:
+        # a generated module carries the scripts of event kinds (a configuration file cannot hold tuples)
+        sd = os.path.join(d, "scr%d" % k)
+        os.makedirs(sd)
+        module = "MC_SyncScripted"
+        mp = os.path.join(sd, module + ".tla")
+        with open(mp, "w") as f:
+            f.write("---- MODULE %s ----\nEXTENDS MC_Sync\nScriptsV == {%s}\n====\n" % (module, ", ".join("<<%s>>" % ", ".join('"%s"' % x for x in sc) for sc in scripts)))
+        extra_files, extra = (mp,), extra + ["CONSTANT Scripts <- ScriptsV"]
+    c.write_cfg(cfg, "MSySpec", consts, invariants, properties, view=view, extra=extra, constraint=constraint)
+    return c.run_tlc(module, cfg, timeout=timeout, out_file=emit_file, simulate=simulate, depth=depth, seed=seed, workers=1 if simulate else workers, extra_files=extra_files)
 
 
-def generate(tag, consts, sample=None, rng=None, simulate=None, depth=None, seed=None, constraint="ChoiceConstraint"):
+def random_scripts(rng, count, length, extra_kinds=()):
+    """Sequences of environment event KINDS, uniformly over kinds rather than over concrete behaviours."""
+    kinds, weights = ["connect", "reply", "announce", "close"] + list(extra_kinds), [0.2, 0.27, 0.35, 0.18] + [0.15] * len(extra_kinds)
+    out = set()
+    while len(out) < count:
+        sc = ["connect"]
+        while len(sc) < length:
+            sc.append(rng.choices(kinds, weights)[0])
+        if sc.count("connect") <= 3 and "announce" in sc:
+            out.add(tuple(sc))
+    return sorted(out)
+
+
+def generate(tag, consts, sample=None, rng=None, simulate=None, depth=None, seed=None, constraint="ChoiceConstraint", scripts=None):
     d = c.sub("gen")
     raw = os.path.join(d, tag + ".out")
-    r = tlc(consts, ["EmitInv"], view=None, emit_file=raw, simulate=simulate, depth=depth, seed=seed, constraint=constraint)
+    r = tlc(consts, ["EmitInv"], view=None, emit_file=raw, simulate=simulate, depth=depth, seed=seed, constraint=constraint, scripts=scripts)
     if not r.ok and not simulate:
         raise c.Infra("sync generation %s failed: %s" % (tag, r.out[-1500:]))
     out = os.path.join(d, tag + ".jsonl")
